@@ -238,6 +238,21 @@ pub fn exec(toks: &[&str]) -> String {
             },
             None => "bad-op".into(),
         },
+        // a file made through the API (never through the parser) with one ASPA assertion of <n> providers: serialise, parse back
+        ["apiaspa", n] => {
+            let n: u32 = match n.parse() { Ok(n) => n, Err(_) => return "bad-op".into() };
+            let provs = match ProviderAsns::try_from_iter((1..=n).map(Asn::from_u32)) { Ok(p) => p, Err(_) => return "build-err".into() };
+            let a = rpki::slurm::AspaAssertion::new(Asn::from_u32(64496), provs, None);
+            let mut la = rpki::slurm::LocallyAddedAssertions::new(Vec::new(), Vec::new());
+            la.aspa = Some(vec![a]);
+            let file = SlurmFile::new(rpki::slurm::ValidationOutputFilters::default(), la);
+            let text = file.to_string();
+            match SlurmFile::from_str(&text) {
+                Ok(g) if g == file => "ok".into(),
+                Ok(_) => "roundtrip-differs".into(),
+                Err(_) => "roundtrip-unparseable".into(),
+            }
+        }
         ["drop", ft, pt] => {
             let ftext = match to_json(ft) { Some(x) => x, None => return "bad-op".into() };
             let text = format!("{{\"slurmVersion\":2,\"validationOutputFilters\":{},\"locallyAddedAssertions\":{}}}", ftext, EMPTY_ASSERT);
@@ -416,6 +431,41 @@ fn mutate(rng: &mut Rng, tree: &str) -> String {
     }
 }
 
+/// The *sequence form* serde derives for the structs of a SLURM file (fields in declaration order in a JSON array):
+/// rewrites some of the objects of a written file into that form.  `wrong` also produces arrays that are one element
+/// short or long.
+fn seq_form(rng: &mut Rng, file: &SlurmFile, wrong: bool) -> String {
+    use serde_json::{json, Value};
+    let v: Value = serde_json::to_value(file).unwrap();
+    let get = |o: &Value, k: &str| o.get(k).cloned().unwrap_or(Value::Null);
+    let mut bend = |rng: &mut Rng, mut a: Vec<Value>| -> Value {
+        if wrong && rng.chance(1, 4) { if rng.bool() { a.pop(); } else { a.push(Value::Null); } }
+        Value::Array(a)
+    };
+    let mut list = |rng: &mut Rng, l: &Value, fields: &[&str], need: &[&str]| -> Value {
+        match l {
+            Value::Array(items) => Value::Array(items.iter().map(|it| {
+                if rng.bool() && need.iter().all(|k| it.get(*k).is_some()) {
+                    bend(rng, fields.iter().map(|k| get(it, k)).collect())
+                } else { it.clone() }
+            }).collect()),
+            other => other.clone(),
+        }
+    };
+    let f = get(&v, "validationOutputFilters");
+    let a = get(&v, "locallyAddedAssertions");
+    let pf = list(rng, &get(&f, "prefixFilters"), &["prefix", "asn", "comment"], &[]);
+    let bf = list(rng, &get(&f, "bgpsecFilters"), &["SKI", "asn", "comment"], &["SKI"]);
+    let af = list(rng, &get(&f, "aspaFilters"), &["customerAsid", "comment"], &[]);
+    let ba = list(rng, &get(&a, "bgpsecAssertions"), &["asn", "SKI", "routerPublicKey", "comment"], &[]);
+    let f2 = if rng.bool() { bend(rng, vec![pf, bf, af]) } else { json!({"prefixFilters": pf, "bgpsecFilters": bf, "aspaFilters": af}) };
+    let a2 = if rng.bool() { bend(rng, vec![get(&a, "prefixAssertions"), ba, get(&a, "aspaAssertions")]) }
+        else { json!({"prefixAssertions": get(&a, "prefixAssertions"), "bgpsecAssertions": ba, "aspaAssertions": get(&a, "aspaAssertions")}) };
+    let top = if rng.chance(1, 3) { bend(rng, vec![get(&v, "slurmVersion"), f2, a2]) }
+        else { json!({"slurmVersion": get(&v, "slurmVersion"), "validationOutputFilters": f2, "locallyAddedAssertions": a2}) };
+    top.to_string()
+}
+
 pub fn generate(ctx: &mut Ctx) {
     let mut rng = Rng::new(ctx.seed ^ 0xC15);
     let thorough = ctx.tier_thorough;
@@ -466,6 +516,7 @@ pub fn generate(ctx: &mut Ctx) {
         let pl = rng.pick(&payloads).clone();
         ctx.case(&format!("drop {} {}", filters(&p, &b, a.as_deref()), pl));
     }
+    for n in [0u32, 1, 2, 255, 256, 16379, 16380, 16381, 20000] { ctx.case(&format!("apiaspa {}", n)); }
     // provider lists of the largest admitted size and just around it (one case each: the lines are long)
     for k in [16379u32, 16380, 16381] {
         let provs: Vec<String> = (1..=k).map(|i| format!("N{}", i)).collect();
@@ -478,9 +529,14 @@ pub fn generate(ctx: &mut Ctx) {
         let ea = "{\"prefixAssertions\":[],\"bgpsecAssertions\":[]}";
         let mut texts: Vec<String> = vec![String::new(), " ".into(), "{}".into(), "[]".into(), "null".into(), wrap(ef, ea), format!(" \t\r\n{}\n ", wrap(ef, ea)),
             format!("{}x", wrap(ef, ea)), format!("{}{}", wrap(ef, ea), wrap(ef, ea)), format!("{}{}", '\u{feff}', wrap(ef, ea)), format!("{},", wrap(ef, ea)),
+            // the sequence form serde derives for structs
+            "[1,[[],[]],[[],[]]]".into(), "[1,[[],[],null],[[],[],null]]".into(), "[1,[[],[],[]],[[],[],[]]]".into(), "[3,[[],[],null],[[],[],null]]".into(),
+            "[1,[[],[],null],[[],[],null],null]".into(), "[1,[[],[],null]]".into(),
+            "{\"slurmVersion\":1,\"validationOutputFilters\":[[],[]],\"locallyAddedAssertions\":[[],[]]}".into(),
+            "{\"slurmVersion\":1,\"validationOutputFilters\":[[],[],null],\"locallyAddedAssertions\":[[],[],null]}".into(),
+            "{\"slurmVersion\":1,\"validationOutputFilters\":[[[\"10.0.0.0/8\",5,null],[null,null,\"c\"],[null,7]],[[\"AQIDBAUGBwgJCgsMDQ4PEBESExQ\",null,null],[null,5,null]],[[5,null],[null,\"x\"]]],\"locallyAddedAssertions\":[[[\"10.0.0.0/8\",5,null,null]],[[5,\"AQIDBAUGBwgJCgsMDQ4PEBESExQ\",\"AQID\",null]],[[1,[2,3],null]]]}".into(),
+            "{\"slurmVersion\":1,\"validationOutputFilters\":[[[\"10.0.0.0/8\",5,null]],[],null],\"locallyAddedAssertions\":[[],[[5,\"AQIDBAUGBwgJCgsMDQ4PEBESExQ\",\"AQID\",\"k\"]],null]}".into(),
             ];
-        // not generated: the *sequence form* serde derives for every struct (`"validationOutputFilters":[[],[],null]` is
-        // read like the map form); the reader model covers the map form, see DESIGN.md A.6 (C15, session 12)
         for c in ["x", "\\u0041", "\\u00e9", "\\u00E9", "\\u0000", "\\u001f", "\\u007f", "\\u0080", "\\u07ff", "\\u0800", "\\uffff", "\\ud7ff", "\\ue000",
                   "\\ud83d\\ude00", "\\uD83D\\uDE00", "\\ud800\\udc00", "\\udbff\\udfff", "\\ud800", "\\udc00", "\\ud800x", "\\ud800\\u0041", "\\ud800\\ud800", "\\udfff\\ud800",
                   "\\/", "\\b\\f\\n\\r\\t\\\"\\\\", "\\a", "\\x41", "\\u12", "\\u12g4", "\\U0041", "\\", "\t", "\n", "\u{1}", "\u{7f}", "\u{e9}", "\u{2028}", "\u{1f600}", "a\\u0062c", "\\u005c\\u0022"] {
@@ -531,6 +587,9 @@ pub fn generate(ctx: &mut Ctx) {
                 let pretty = file.to_string_pretty();
                 ctx.case(&format!("jraw {}", hex(compact.as_bytes())));
                 ctx.case(&format!("jraw {}", hex(pretty.as_bytes())));
+                // the sequence form of the structs: read like the map form; one element short or long is an error
+                ctx.case(&format!("jraw {}", hex(seq_form(&mut rng, &file, false).as_bytes())));
+                ctx.case(&format!("jraw {}", hex(seq_form(&mut rng, &file, true).as_bytes())));
                 let alphabet: &[u8] = b"\"\\/bfnrtu{}[],:-+.eE0123456789 \t\n\raDxX=_";
                 for base in [&compact, &pretty] {
                     for _ in 0..3 {
